@@ -156,6 +156,8 @@ class Call2Mixin:
     env = self.bind_params(node.args, args, kwargs, mod)
     env = {k: v for k, v in env.items() if not k.startswith('__')}
     site = f'{self.cur_name}/call:{c.short}'
+    for g, fn in c.site_ghost.items():      # ghost arguments chosen by the call site (checked by the requires below)
+      env[g] = fn(self, env)
     for k, r in enumerate(c.requires):
       self.oblige(f'{site}/requires#{k}', self.spec(r, env), 'call-precondition', {'text': r})
     old = self.snapshot(env)
@@ -606,7 +608,7 @@ class Call2Mixin:
 
 def _internal(clause, c=None):
   import re as _re
-  if c is not None and any(_re.search(r'\b' + g + r'\b', clause) for g in c.ghost):
+  if c is not None and any(_re.search(r'\b' + g + r'\b', clause) for g in c.ghost if g not in c.site_ghost):
     return True
   return _internal0(clause)
 
